@@ -59,6 +59,12 @@ CLAIMED.update({
          LEDGER_NOTE + " The tip rounding is not fixed by the property: up to one atto per cost unit is tolerated.", "5 C06"),
 })
 
+CLAIMED.update({
+ "C07": ("exploration", "deterministic simulation: real signed V1/V2 transactions (with subintents) duplicated and delayed by a simulated mempool across long simulated epoch histories driven by real round-change transactions, node restarts; oracle = set of committed intents; plus the real tracker ring driven alone through ring wraps against a map model",
+         "Seeded submission histories with duplicates/delays across hundreds to thousands of real epoch changes (thorough: beyond the 19100-epoch ring wrap) and restarts: a committed intent inside its window must be rejected, outside the window an epoch rejection, a fresh intent must not be rejected for these reasons, no hash nullified twice, subintents of failed parents stay usable; the real partition_for_expiry_epoch/advance are additionally driven through tens of thousands of epochs checking that no live record is discarded or looked up in the wrong partition.",
+         LEDGER_NOTE + " The ring-only layer restates the executor's advance condition.", "5 C07"),
+})
+
 PURE = "pure function of one input value: no schedule, clock, I/O, fault or history for a simulator to own (DESIGN section 6)"
 NOT_APPLICABLE = {
  "C16": "key mapping is a pure bijection on keys; " + PURE,
